@@ -893,14 +893,13 @@ class SimulationObject(TreeClass, ABC):
         self,
         other: "SimulationObject",
     ) -> bool:
+        # boxes overlap (touching included) iff their index intervals intersect on every axis
         for axis in range(3):
             s_start, s_end = self._grid_slice_tuple[axis]
             o_start, o_end = other._grid_slice_tuple[axis]
-            if o_start <= s_start <= o_end:
-                return True
-            if o_start <= s_end <= o_end:
-                return True
-        return False
+            if s_end < o_start or o_end < s_start:
+                return False
+        return True
 
     def __eq__(
         self: Self,
